@@ -5,7 +5,7 @@
    computation, lifted with the Leibniz float equality); float64(sum) >= 255 and
    float64(difference) < 0 for unbounded operands go through Proofs/CurveFloat.v. *)
 From Coq Require Import ZArith Bool List Floats Lia.
-From F2G Require Import Go.GoFloat Model.Util Model.Controller Model.Curves Proofs.Rescale Proofs.CurveFloat.
+From F2G Require Import Go.GoFloat Model.Util Model.Curves Proofs.CurveFloat.
 Import ListNotations.
 Open Scope Z_scope.
 
@@ -28,6 +28,28 @@ Definition in255 (v : Z) : Prop := 0 <= v <= 255.
 Definition small_len (vs : list Z) : Prop := Z.of_nat (length vs) < 2 ^ 40.
 
 (* ---- exhaustive float facts on 0..255 ---- *)
+Fixpoint upto (n : nat) (f : Z -> bool) : bool :=
+  match n with O => true | S k => f (Z.of_nat k) && upto k f end.
+
+Lemma upto_spec n f : upto n f = true -> forall z, 0 <= z < Z.of_nat n -> f z = true.
+Proof.
+  induction n as [|k IH]; intros H z Hz; [lia|].
+  cbn [upto] in H. apply andb_true_iff in H. destruct H as [H1 H2].
+  destruct (Z.eq_dec z (Z.of_nat k)) as [->|N]; [exact H1|]. apply IH; auto. lia.
+Qed.
+
+Definition dsub_ok (lo hi : Z) : bool :=
+  (hi <? lo) || PrimFloat.Leibniz.eqb (PrimFloat.sub (i2f hi) (i2f lo)) (i2f (hi - lo)).
+Lemma dsub_chk : upto 256 (fun lo => upto 256 (fun hi => dsub_ok lo hi)) = true.
+Proof. vm_compute. reflexivity. Qed.
+Lemma sub_exact lo hi : 0 <= lo -> lo <= hi -> hi <= 255 ->
+  PrimFloat.sub (i2f hi) (i2f lo) = i2f (hi - lo).
+Proof.
+  intros H0 H1 H2.
+  pose proof (upto_spec _ _ (upto_spec _ _ dsub_chk lo ltac:(lia)) hi ltac:(lia)) as C. unfold dsub_ok in C.
+  apply orb_true_iff in C. destruct C as [C|C]; [apply Z.ltb_lt in C; lia|now apply FloatAxioms.Leibniz.eqb_spec].
+Qed.
+
 Definition fz_ok (a : Z) : bool := f2i (i2f a) =? a.
 Lemma fz_chk : upto 256 fz_ok = true.
 Proof. vm_compute. reflexivity. Qed.
